@@ -203,6 +203,7 @@ func init() {
 			ruleEncAvail(c, r, "")
 			ruleWriter2Split(c, r, "")
 			ruleMatchLen(c, r, "")
+			ruleWriteMatchCE(c, r, "")
 			ruleDictCapRange(c, r, "")
 			{
 				// the LZMA2 chunk header both ways at its boundary values (a chunk of more than 1 MiB)
